@@ -284,6 +284,11 @@ func (g *Gen) rangeOfA(t types.Type, s string, al string) string {
 			return fmt.Sprintf("(and (< %s %s) (< (ref.root %s) %s))", s, al, s, al)
 		}
 		return "true"
+	case *types.Interface:
+		if g.E != nil && g.E.contracts.NonNil[typeID(t)] {
+			return "(not (= " + s + " iface.nil))"
+		}
+		return "true"
 	case *types.Map, *types.Chan:
 		return fmt.Sprintf("(and (<= 0 %s) (< %s %s))", s, s, al)
 	case *types.Slice:
